@@ -72,7 +72,7 @@ struct ustar {
 #define	USTAR_size_max_size 12
 #define	USTAR_mtime_offset 136
 #define	USTAR_mtime_size 11
-#define	USTAR_mtime_max_size 11
+#define	USTAR_mtime_max_size 12
 #define	USTAR_checksum_offset 148
 #define	USTAR_checksum_size 8
 #define	USTAR_typeflag_offset 156
